@@ -92,6 +92,10 @@ std::string run_op(std::vector<std::string> const& w, std::string const& path, I
                 if (pat[i] == 's') { size_t j = i; while (j < pat.size() && pat[j] == 's') ++j;
                     if (j - i > 1) std::advance(it, (long)(j - i)); else ++it;
                     pos += (long)(j - i); i = j; continue; }
+                if (pat[i] == 'p') {
+                    unsigned char* b = *it++;
+                    auto rv = gil::interleaved_view((std::size_t)rd._info._width, 1, (pixel_t*)b, (std::ptrdiff_t)rd._scanline_length);
+                    out += " " + hex(dump<CB>(rv)); ++i; ++pos; continue; }
                 unsigned char* b = *it;
                 for (int rep = 0; rep < (pat[i] == 'D' ? 2 : 1); ++rep) {
                     if (rep) b = *it;
